@@ -156,8 +156,8 @@ def main(tier: str, seed: int):
     sess = Session(PID, tier, seed, level="exploration", rule=RULE)
     sess.assume("time budgets (quantum_ms, wall_ms, time_ms_reflection) are declared inputs: scenarios set them far above any elapsed time so that clock variants stay on the same side of them")
     sess.assume("optional backends absent from the image are not exercised: LanceDB, zstd snapshot codec (the writer degrades to none), real BGE encoder, Ollama")
-    total = 12 if tier == "quick" else 250
-    nchunks = 4 if tier == "quick" else 5
+    total = 12 if tier == "quick" else 800
+    nchunks = 4 if tier == "quick" else 8
     per = max(1, total // nchunks)
     for ex in par.pmap(_chunk, [(tier, seed, i, per) for i in range(nchunks)], workers=nchunks):
         sess.merge(ex)
